@@ -14,6 +14,10 @@ pub struct PagedWriter<T: Write + Read + Seek> {
     offset: usize,
     page_buffer: [u8; PAGE_SIZE as usize],
 
+    // Set when an operation on the underlying writer failed. Its position is
+    // unknown afterwards and the buffered page must not be written when dropping.
+    failed: bool,
+
     #[cfg(not(feature = "crc32c"))]
     crc: Crc32,
 }
@@ -31,6 +35,7 @@ impl<T: Write + Read + Seek> PagedWriter<T> {
             writer,
             offset: 0,
             page_buffer: [0_u8; PAGE_SIZE as usize],
+            failed: false,
 
             #[cfg(not(feature = "crc32c"))]
             crc: Crc32::new(),
@@ -48,6 +53,14 @@ impl<T: Write + Read + Seek> PagedWriter<T> {
 
     /// Seek to a specific physical offset in the file.
     pub fn physical_seek(&mut self, pos: u64) -> Result<()> {
+        let result = self.physical_seek_inner(pos);
+        if let Err(Error::Write { .. }) = &result {
+            self.failed = true;
+        }
+        result
+    }
+
+    fn physical_seek_inner(&mut self, pos: u64) -> Result<()> {
         // Make sure we wrote any current (partial) page before seeking
         self.flush().write_err("Failed to flush before seeking")?;
 
@@ -113,6 +126,12 @@ impl<T: Write + Read + Seek> PagedWriter<T> {
 
     // Get the current physical size of the file.
     pub fn physical_size(&mut self) -> Result<u64> {
+        let result = self.physical_size_inner();
+        self.failed |= result.is_err();
+        result
+    }
+
+    fn physical_size_inner(&mut self) -> Result<u64> {
         self.flush().write_err("Cannot flush writer")?;
         let pos = self
             .writer
@@ -140,8 +159,8 @@ impl<T: Write + Read + Seek> PagedWriter<T> {
     }
 }
 
-impl<T: Write + Read + Seek> Write for PagedWriter<T> {
-    fn write(&mut self, buf: &[u8]) -> std::io::Result<usize> {
+impl<T: Write + Read + Seek> PagedWriter<T> {
+    fn write_inner(&mut self, buf: &[u8]) -> std::io::Result<usize> {
         let remaining_page_bytes = PAGE_PAYLOAD_SIZE - self.offset;
         let writeable_bytes = buf.len().min(remaining_page_bytes);
         self.page_buffer[self.offset..self.offset + writeable_bytes]
@@ -167,7 +186,7 @@ impl<T: Write + Read + Seek> Write for PagedWriter<T> {
         Ok(writeable_bytes)
     }
 
-    fn flush(&mut self) -> std::io::Result<()> {
+    fn flush_inner(&mut self) -> std::io::Result<()> {
         // If the page buffer is empty we do not need to persist it
         if self.offset > 0 {
             // Store start position in current page
@@ -194,8 +213,27 @@ impl<T: Write + Read + Seek> Write for PagedWriter<T> {
     }
 }
 
+impl<T: Write + Read + Seek> Write for PagedWriter<T> {
+    fn write(&mut self, buf: &[u8]) -> std::io::Result<usize> {
+        let result = self.write_inner(buf);
+        self.failed |= result.is_err();
+        result
+    }
+
+    fn flush(&mut self) -> std::io::Result<()> {
+        let result = self.flush_inner();
+        self.failed |= result.is_err();
+        result
+    }
+}
+
 impl<T: Write + Read + Seek> Drop for PagedWriter<T> {
     fn drop(&mut self) {
+        // After a failed operation the position of the underlying writer is unknown.
+        // Writing the buffered page could overwrite valid data at a wrong position.
+        if self.failed {
+            return;
+        }
         if self.flush().is_err() {
             // Cannot handle the error here :/
         }
